@@ -11,7 +11,9 @@ typedef unsigned char u8;
 #define SYS_write 1
 #define SYS_open 2
 #define SYS_close 3
+#define SYS_stat 4
 #define SYS_fstat 5
+#define SYS_utimensat 280
 #define SYS_mmap 9
 #define SYS_mprotect 10
 #define SYS_rt_sigaction 13
@@ -89,6 +91,7 @@ static u64 num(const char *s) {
 }
 
 static char scratch[8192];
+static i64 saved_mtime[2];
 
 /* place a byte block so that it ends exactly at an unmapped page */
 static char *edge_page(void) {
@@ -142,7 +145,7 @@ struct kstat { u64 dev, ino, nlink; u32 mode, uid, gid, pad; u64 rdev; i64 size,
 
 static int arity(const char *op) {
   static const char *a0[] = {"join", "dfl", "killlast", "state", "wait", "pause", "ignore", "block", "setsid", "flush", "segv", 0};
-  static const char *a1[] = {"exit", "raise", "fds", "sleep", "burn", "alloc", "fork", "vfork", "thread", "daemon", "out", "pid", "ls", "statfs", "mods", "kill", "threadraise", "cat", "stack", 0};
+  static const char *a1[] = {"exit", "raise", "fds", "sleep", "burn", "alloc", "fork", "vfork", "thread", "daemon", "out", "pid", "ls", "statfs", "mods", "kill", "threadraise", "cat", "stack", "savemtime", "restoremtime", 0};
   static const char *a2[] = {"write", "grow", "rlim", 0};
   static const char *a3[] = {"rv", 0};
   for (int i = 0; a0[i]; i++) if (seq(op, a0[i])) return 0;
@@ -358,6 +361,13 @@ static void run(int i, int end) {
     else if (seq(op, "cat")) {
       i64 fd = sc(SYS_open, (i64)a1, 0, 0, 0, 0, 0); os("cat "); os(a1); oc(' ');
       if (fd < 0) { oi(fd); nl(); } else { i64 r = sc(SYS_read, fd, (i64)scratch, 256, 0, 0, 0); oi(r); nl(); sc(SYS_close, fd, 0, 0, 0, 0, 0); }
+    }
+    else if (seq(op, "savemtime")) { /* remember the modification time of a path ... */
+      struct kstat st; i64 r = sc(SYS_stat, (i64)a1, (i64)&st, 0, 0, 0, 0); saved_mtime[0] = (i64)st.t[2]; saved_mtime[1] = (i64)st.t[3]; os("savemtime "); oi(r); nl();
+    }
+    else if (seq(op, "restoremtime")) { /* ... and put it back later (utimensat: the owner of a file controls its mtime) */
+      i64 ts[4] = {0, 0x3ffffffe /*UTIME_OMIT*/, saved_mtime[0], saved_mtime[1]};
+      os("restoremtime "); oi(sc(SYS_utimensat, -100, (i64)a1, (i64)ts, 0, 0, 0)); nl();
     }
     else if (seq(op, "wait")) { for (;;) { i64 r = sc(SYS_wait4, -1, 0, 0x40000000 /*__WALL*/, 0, 0, 0); if (r == -4) continue; if (r < 0) break; } os("waited"); nl(); }
     else if (seq(op, "sys")) {
